@@ -17,7 +17,7 @@ RULE = (
     "clause -, batch of 3-9 agents incl. deliberate duplicates (1 case in 8: a large batch of 130-300 agents; 1 case in 8: a cohort whose agents share the discrete states and differ in the continuous states only by a relative 1e-6..1e-8), a permutation, a subset, a duplication (agent j "
     "repeated k times), a reordering of the keys of initial_states, seed). Five simulations of the real code: "
     "A=batch, B=permuted batch, C=subset, D=with duplicates, E=reordered keys. Rows of the same agent must agree "
-    "across runs (discrete exact, floats 1e-12); a differing choice is accepted only if the C02 oracle finds both "
+    "across runs (discrete exact, floats 1e-9: runs with other batch shapes are other compiled programs); a differing choice is accepted only if the C02 oracle finds both "
     "frames tolerance-optimal (counted as tie). For stochastic models only period-0 value/choices are compared. "
     "Non-trivial: >=3 distinct agents whose period-0 choices are not all equal; distinct by case digest."
 )
@@ -127,7 +127,8 @@ def check(case):
         if vfull is None:
             vfull = simcheck.vfull_list(ref, [np.asarray(a) for a in sol])
         m, ties = simcheck.explain_difference(
-            spec, ref, dfA, df, vfull, [(orig, pos) for pos, orig in enumerate(idx)], periods=list(periods)
+            spec, ref, dfA, df, vfull, [(orig, pos) for pos, orig in enumerate(idx)], periods=list(periods),
+            float_tol=1e-9,  # runs with other batch shapes are other compiled programs: rounding may differ
         )
         cnt["ties"] += ties
         if m:
